@@ -44,6 +44,38 @@ const vf18NPaths = 5
 
 type vf18Crash struct{}
 
+// Version ids of the case language map to deliberately confusable version strings: proper prefixes /
+// suffixes of each other, last-digit-count, case, leading 'v', leading / trailing blank, +build suffix.
+// The code compares versions by exact string equality, the model by id equality; the strings are
+// pairwise distinct, so the two agree exactly when the code really compares whole strings.
+var vf18Versions = []string{"0.13.0", "0.13.1", "0.13.2", "0.13.10", "0.13.1+dirty", "v0.13.1", "0.13.1 ", "0.13",
+	"0.13.1-rc1", "0.13.1-RC1", "0.13.11", "10.13.1", " 0.13.1", "0.13.1-3-gabc1234", "0.13.01", "0.13.1.0"}
+
+func vf18Ver(id string) string {
+	n, err := strconv.Atoi(id)
+	if err != nil || n < 0 {
+		return "bad-" + id
+	}
+	if n < len(vf18Versions) {
+		return vf18Versions[n]
+	}
+	return "9.9." + id
+}
+
+func vf18VerID(s string) string {
+	for i, v := range vf18Versions {
+		if v == s {
+			return strconv.Itoa(i)
+		}
+	}
+	if strings.HasPrefix(s, "9.9.") {
+		if _, err := strconv.Atoi(s[4:]); err == nil {
+			return s[4:]
+		}
+	}
+	return "?"
+}
+
 type vf18Obst struct {
 	p      int
 	sticky bool
@@ -380,7 +412,7 @@ func (sb *vf18Sandbox) clearObstacles() {
 }
 
 func (sb *vf18Sandbox) plantCurrent(v string) error {
-	y := fmt.Sprintf("schema_version: 2\nosvbng_version: %s\nmin_compatible_version: v0\ntype: A\nbuild_commit: planted\nartifacts:\n  - path: %s\n    source: m0\n    sha256: %s\n    requires_restart: none\n",
+	y := fmt.Sprintf("schema_version: 2\nosvbng_version: %q\nmin_compatible_version: v0\ntype: A\nbuild_commit: planted\nartifacts:\n  - path: %s\n    source: m0\n    sha256: %s\n    requires_restart: none\n",
 		v, sb.paths[0], strings.Repeat("0", 64))
 	return os.WriteFile(filepath.Join(sb.runner.StateRoot, "current-manifest.yaml"), []byte(y), 0o644)
 }
@@ -429,7 +461,7 @@ func (sb *vf18Sandbox) observe(res, mon string) string {
 
 func (sb *vf18Sandbox) curVersion() string {
 	if m, err := ParseManifestFile(filepath.Join(sb.runner.StateRoot, "current-manifest.yaml")); err == nil {
-		return strings.TrimPrefix(m.OsvbngVersion, "v")
+		return vf18VerID(m.OsvbngVersion)
 	} else if errors.Is(err, os.ErrNotExist) {
 		return "none"
 	}
@@ -439,7 +471,7 @@ func (sb *vf18Sandbox) curVersion() string {
 func (sb *vf18Sandbox) observeVer(res, mon, ver string) string {
 	cur := "?"
 	if m, err := ParseManifestFile(filepath.Join(sb.runner.StateRoot, "current-manifest.yaml")); err == nil {
-		cur = strings.TrimPrefix(m.OsvbngVersion, "v")
+		cur = vf18VerID(m.OsvbngVersion)
 	} else if errors.Is(err, os.ErrNotExist) {
 		cur = "none"
 	}
@@ -447,7 +479,7 @@ func (sb *vf18Sandbox) observeVer(res, mon, ver string) string {
 	if ents, err := os.ReadDir(sb.runner.RollbackRoot); err == nil {
 		for _, e := range ents {
 			if _, err := os.Stat(filepath.Join(sb.runner.RollbackRoot, e.Name(), "metadata.yaml")); err == nil {
-				n, err := strconv.Atoi(strings.TrimPrefix(e.Name(), "v"))
+				n, err := strconv.Atoi(vf18VerID(e.Name()))
 				if err != nil {
 					n = -1
 				}
@@ -578,18 +610,18 @@ func (sb *vf18Sandbox) buildTarball(kv map[string]string, arts []vf18Art) (strin
 	if tam == "tierb" {
 		typ = "B"
 	}
-	fmt.Fprintf(&y, "schema_version: 2\nosvbng_version: v%s\nmin_compatible_version: v0\n", kv["to"])
+	fmt.Fprintf(&y, "schema_version: 2\nosvbng_version: %q\nmin_compatible_version: v0\n", vf18Ver(kv["to"]))
 	var members []vf18Member
 	prev := kv["prev"]
 	if prev != "-" && prev != "" {
 		cls := prev[len(prev)-1]
 		pv := prev[:len(prev)-1]
-		pm := []byte("schema_version: 2\nosvbng_version: v" + pv + "\n# previous manifest\n")
+		pm := []byte(fmt.Sprintf("schema_version: 2\nosvbng_version: %q\n# previous manifest\n", vf18Ver(pv)))
 		sha := vf18Sha(pm)
 		if cls == 'h' {
 			sha = vf18Sha([]byte("other"))
 		}
-		fmt.Fprintf(&y, "previous_version: v%s\nprevious_manifest_sha256: %s\n", pv, sha)
+		fmt.Fprintf(&y, "previous_version: %q\nprevious_manifest_sha256: %s\n", vf18Ver(pv), sha)
 		if cls != 'f' {
 			k := sb.key
 			if cls == 'g' {
@@ -750,7 +782,7 @@ func (sb *vf18Sandbox) doApply(tokens []string) string {
 	}
 	opts := ApplyOptions{ForceRetry: kv["force"] == "1"}
 	if e := kv["exp"]; e != "-" && e != "" {
-		opts.ExpectedFrom = "v" + e
+		opts.ExpectedFrom = vf18Ver(e)
 	}
 	pre := sb.dump()
 	preVer := sb.curVersion()
@@ -890,7 +922,7 @@ func vf18RunCase(line, root string, key, wrong *ecdsa.PrivateKey, pubPEM []byte)
 	if err != nil {
 		return "harness-error"
 	}
-	if err := sb.plantCurrent("v" + f[1]); err != nil {
+	if err := sb.plantCurrent(vf18Ver(f[1])); err != nil {
 		return "harness-error"
 	}
 	if f[2] != "-" {
